@@ -468,7 +468,7 @@ def suite_C02(g, tier):
     pats = [("p2", "p0", "p1"), ("p0", "p0", "p1"), ("p1", "p0", "p1"), ("p0", "p0", "p0"), ("p2", "p0", "p0")]
     for it in range(n):
         A = any_point(rng)
-        c = rng.randrange(6)
+        c = rng.randrange(8)
         if c == 0:
             Bp = A
         elif c == 1:
@@ -477,6 +477,12 @@ def suite_C02(g, tier):
             Bp = (0, 1)
         elif c == 3:
             Bp = padd(A, rng.choice(TORS_PTS))
+        elif c == 4:                                   # a small multiple of A, or its negation
+            Bp = pmul(rng.choice([2, 3, 4, 5, 7, 8, 9, 16]), A)
+            if rng.randrange(2):
+                Bp = ((P - Bp[0]) % P, Bp[1])
+        elif c == 5:                                   # sharing one coordinate with A
+            Bp = (A[0], (P - A[1]) % P)
         else:
             Bp = any_point(rng)
         for op in binops:
@@ -686,7 +692,7 @@ def suite_C04(g, tier):
     for v in [0, 1, 2, P - 1, P - 2, P + 1, P + 2, 2**255 - 1, 2**255 - 20, (P - 1) // 2]:
         for sign in (0, 1):
             encs.append((le((v % 2**255) | (sign << 255)), "edge"))
-    n = 40 if tier == "quick" else 1500
+    n = 40 if tier == "quick" else 20000
     for _ in range(n):
         c = rng.randrange(5)
         if c == 0:
@@ -704,7 +710,7 @@ def suite_C04(g, tier):
         else:
             encs.append((le(sparse_val(rng) | (rng.randrange(2) << 255)), "sparse"))
     # small |x| and small y, both signs
-    lim = 20 if tier == "quick" else 70
+    lim = 20 if tier == "quick" else 400
     for x in range(lim):
         pt = point_with_x(x)
         if pt is not None:
@@ -721,7 +727,7 @@ def suite_C04(g, tier):
             if rng.randrange(3) == 0:
                 p.op("Point.Bytes", r=r, o=["b7"])    # panics if r is still the zero value: also fine (C15)
     # both sign candidates of the same y decoded back to back (and the first one again), into the same and into other receivers
-    m = 8 if tier == "quick" else 120
+    m = 8 if tier == "quick" else 1000
     for it in range(m):
         p = g.new("C04 both signs back to back")
         for k in range(3):
@@ -751,7 +757,7 @@ def suite_C04(g, tier):
 
 def suite_C05(g, tier):
     rng = g.rng
-    n = 10 if tier == "quick" else 150
+    n = 10 if tier == "quick" else 1200
     for it in range(n):
         A = any_point(rng)
         Bp = any_point(rng)
@@ -812,7 +818,7 @@ def suite_C05(g, tier):
             p.op("Point.Bytes", r="p5", o=["b2"])
             p.op("Point.Add", r="p5", a=[r, "p4"])
             p.op("Point.Bytes", r="p5", o=["b3"])
-    m = 30 if tier == "quick" else 600
+    m = 30 if tier == "quick" else 8000
     for it in range(m):
         p = g.new("C05 special coordinates")
         pt = special_point(rng)
@@ -824,7 +830,7 @@ def suite_C05(g, tier):
 
 def suite_C06(g, tier):
     rng = g.rng
-    n = 25 if tier == "quick" else 400
+    n = 25 if tier == "quick" else 4000
     for it in range(n):
         A = any_point(rng) if it % 2 else special_point(rng)
         x, y = A
@@ -896,7 +902,7 @@ SC_OPS2 = ["Scalar.Add", "Scalar.Subtract", "Scalar.Multiply"]
 
 def suite_C07(g, tier):
     rng = g.rng
-    n = 40 if tier == "quick" else 1500
+    n = 40 if tier == "quick" else 6000
     for it in range(n):
         p = g.new("C07 scalar arithmetic")
         a = scalar_val(rng)
@@ -1040,8 +1046,9 @@ def suite_C08(g, tier):
                 for j in range(i):
                     b[j] = rng.randrange(256)
                 strs.append(bytes(b))
-        strs += [bytes(rng.randrange(256) for _ in range(32)) for _ in range(300)]
-        strs += [le(scalar_val(rng)) for _ in range(300)]
+        strs += [bytes(rng.randrange(256) for _ in range(32)) for _ in range(6000)]
+        strs += [le(scalar_val(rng)) for _ in range(6000)]
+        strs += [le((L + rng.randrange(-2**20, 2**20)) % 2**256) for _ in range(3000)]
     else:
         strs += [le(scalar_val(rng)) for _ in range(20)]
     for i in range(0, len(strs), 6):
@@ -1067,8 +1074,9 @@ def suite_C08(g, tier):
         b = bytearray(64)
         b[j] = 1 << rng.randrange(8)
         wides.append(bytes(b))
-    nw = 20 if tier == "quick" else 600
+    nw = 20 if tier == "quick" else 12000
     wides += [bytes(rng.randrange(256) for _ in range(64)) for _ in range(nw)]
+    wides += [le(scalar_val(rng) + rng.randrange(2**259) * L, 64) for _ in range(nw // 2)]
     for i in range(0, len(wides), 6):
         p = g.new("C08 wide")
         load_scalar(p, "s1", scalar_val(rng), rng, "canon")
@@ -1086,7 +1094,7 @@ def suite_C08(g, tier):
             b[31] = (b[31] & 0x3f) | (hi << 6)
             clamps.append(bytes(b))
     clamps += [bytes(32), bytes([255] * 32)]
-    nc = 6 if tier == "quick" else 300
+    nc = 6 if tier == "quick" else 6000
     clamps += [bytes(rng.randrange(256) for _ in range(32)) for _ in range(nc)]
     for i in range(0, len(clamps), 6):
         p = g.new("C08 clamping")
@@ -1674,7 +1682,7 @@ def suite_C13(g, tier, only_degenerate=False):
             for r, v in zip(["e0", "e1", "e2", "e3"], [X, Y, Z, T]):
                 load_elem(p, r, v, rng, "bytes")
             p.op("Point.SetExtendedCoordinates", r="p0", a=["e0", "e1", "e2", "e3"])
-    n = 30 if tier == "quick" else 600
+    n = 30 if tier == "quick" else 6000
     for it in range(n):
         p = g.new("C13 import/export")
         pt = any_point(rng)
@@ -1847,7 +1855,7 @@ def suite_C15(g, tier):
 
 def suite_C16(g, tier):
     rng = g.rng
-    n = 50 if tier == "quick" else 2500
+    n = 50 if tier == "quick" else 30000
     for it in range(n):
         p = g.new("C16 sqrt ratio")
         c = it % 10
@@ -1884,7 +1892,7 @@ def suite_C16(g, tier):
     # the algorithm compares v r^2 with u, -u and -u sqrt(-1): operands for which two of these candidates differ only by a
     # sparse delta (one bit, or the high bits of the limbs)
     consts = [2, (1 + SQRTM1) % P, (SQRTM1 - 1) % P, (1 - SQRTM1) % P, (P - 1 - SQRTM1) % P]
-    m = 40 if tier == "quick" else 600
+    m = 40 if tier == "quick" else 5000
     for it in range(m):
         p = g.new("C16 near-miss candidates")
         for k in range(4):
@@ -1912,7 +1920,7 @@ def suite_C16(g, tier):
 
 def suite_C17(g, tier):
     rng = g.rng
-    n = 12 if tier == "quick" else 250
+    n = 12 if tier == "quick" else 2000
     for it in range(n):
         p = g.new("C17 montgomery")
         A = any_point(rng)
@@ -1958,7 +1966,7 @@ def suite_C17(g, tier):
     load_point(p, "p2", (0, 1), rng, "ext-lam")
     p.op("Point.BytesMontgomery", r="p2", o=["b2"])
     # X25519 public keys: BytesMontgomery([clamp(k)]B)
-    m = 4 if tier == "quick" else 60
+    m = 4 if tier == "quick" else 500
     for it in range(m):
         p = g.new("C17 x25519")
         k = bytes(rng.randrange(256) for _ in range(32))
